@@ -473,6 +473,44 @@ example : (deleteWhereM sampleMixed .A1 .tt).toOption.map (fun st => idsInOrder 
     (deleteWhereM sampleMixed .A1 (.hasRole 1)).toOption.map (fun st => (idsInOrder st, rolesIndexIds st 1)) = some ([1, 2, 3, 5, 6], [3]) := by
   decide
 
+/-! ### every lookup API of a store agrees on which entities the store owns -/
+
+/-- **`FindById`, `LoadById`, `LoadEntity`, `IsEntityPresent` and `GetEntityBucket != nil` are
+    functions of the one predicate "the store owns the entity" and the stored fields**: through a
+    plain child store the three lookups find exactly the entities with child data, through an
+    extended child store (and the parent) every parent entity — all three alike, with the same
+    shared fields and child field —, and the two presence tests say whether the store has data of
+    its own for the id.  For every state, store and id. -/
+theorem lookup_apis_agree (st : St) (s : Sel) (id : Id) :
+    findById st s id = ownedLookup st.ents s id ∧
+    loadEntity st s id = ownedLookup st.ents s id ∧
+    loadById st s id = (match ownedLookup st.ents s id with
+      | some x => .ok x
+      | none => .error .notfound) ∧
+    isEntityPresent st s id = ownsData st.ents s id ∧
+    entityBucketNonNil st s id = ownsData st.ents s id := by
+  have h := findById_eq_owned st s id
+  have h2 : loadEntity st s id = findById st s id := by
+    unfold loadEntity findById; cases bucketForLoad st s id <;> rfl
+  have h3 : loadById st s id = (match findById st s id with | some x => .ok x | none => .error .notfound) := by
+    unfold loadById findById; cases bucketForLoad st s id <;> rfl
+  have h4 : isEntityPresent st s id = ownsData st.ents s id := by
+    unfold isEntityPresent ownsData ownsEnt
+    cases mget st.ents id with
+    | none => rfl
+    | some e => cases s <;> simp [Sel.isExtended, Ent.hasChild]
+  refine ⟨h, by rw [h2, h], by rw [h3, h]; cases ownedLookup st.ents s id <;> rfl, h4, ?_⟩
+  rw [← h4]
+  unfold entityBucketNonNil isEntityPresent
+  cases mget st.ents id <;> rfl
+
+/-- non-vacuity (`sampleMixed`: extension data on 1 and 5, A1 data on 4, plain 2, 3, 6): the extended
+    store's lookups find the plain-parent entity 2 (child field nil) though it has no data for it;
+    the plain child store's do not -/
+example : loadEntity sampleMixed .A2 2 = some (2, [], none) ∧ loadById sampleMixed .A2 2 = .ok (2, [], none) ∧
+    isEntityPresent sampleMixed .A2 2 = false ∧ loadEntity sampleMixed .A1 2 = none ∧
+    loadById sampleMixed .A1 2 = .error .notfound ∧ loadEntity sampleMixed .A1 4 = some (4, [1], some 1) := by decide
+
 /-! ### the shape of the layering: child data paths of any length
 
   `Schema` = the `BasePath`s of the two child stores (the sub-path of the child's data bucket inside
@@ -754,4 +792,5 @@ end StorageModel.Properties.C15
 #print axioms StorageModel.Properties.C15.create_through_child_exists_in_both_for_every_path
 #print axioms StorageModel.Properties.C15.update_either_route_same_state_for_every_path
 #print axioms StorageModel.Properties.C15.parent_and_child_parts_disjoint
+#print axioms StorageModel.Properties.C15.lookup_apis_agree
 #print axioms StorageModel.Properties.C15.pinned_create_violates
